@@ -333,6 +333,16 @@ def judge_pair(x_spec, tname, entry):
                 if o[0] == "ok":
                     fails.append((f"no_data_loss/extra-tuple-items-accepted-next-to-an-addition-policy/{tname}", {"options": dict({"no_data_loss": True}, **extra), "result": codec.encode(o[1])}))
                     break
+    if tname == "data":
+        # unknown keys are rejected under no_data_loss - also when the option set spells out the default policy (addition=None:
+        # "ignore them") beside the flag, as an argument or as a class attribute
+        xx = _decode_for(x_spec, None, "plain")
+        if isinstance(xx, dict) and any(k not in ("a", "b") for k in xx):
+            for how, flags in (("argument", {"no_data_loss": True, "addition": None}), ("class-attribute", {"__class_attrs__": {"no_data_loss": True, "addition": None}})):
+                o = run_one(x_spec, tname, flags, entry)
+                if o[0] == "ok":
+                    fails.append((f"no_data_loss/unknown-keys-dropped-next-to-addition-none/{how}", {"result": codec.encode(o[1])}))
+                    break
     info = {"accepted": {k: v[0] == "ok" for k, v in res.items()}}
     if any(v[0] in ("other", "hang") for v in res.values()):
         info["other"] = True
